@@ -175,8 +175,41 @@ func extractKill(p *pkgs, f *facts) {
 	} else {
 		f.miss = append(f.miss, "NewRPCClient")
 	}
-	f.lean = append(f.lean, fmt.Sprintf("def kill : Kill.Params := ⟨%d, %s, %s, %s, %s, %s, %s⟩",
-		grace, leanBool(forceAfter), leanBool(deadline), leanBool(eofGraceful), leanBool(waits), leanBool(clearedLate), leanBool(keepAlive)))
+	// Client.Start: `c.runner = <x>` is a statement of Start's own body that comes before the statement calling <x>.Start(…)
+	keptBefore := false
+	if st := p.fn("Client", "Start"); st != nil {
+		assignIdx, startIdx := -1, -1
+		for i, s := range st.Body.List {
+			if as, ok := s.(*ast.AssignStmt); ok && len(as.Lhs) == 1 && len(as.Rhs) == 1 && exprString(as.Lhs[0]) == "c.runner" && exprString(as.Rhs[0]) != "nil" {
+				if assignIdx < 0 {
+					assignIdx = i
+				}
+			}
+			if startIdx < 0 && strings.Contains(nodeCalls(s), "runner.Start(") {
+				startIdx = i
+			}
+		}
+		keptBefore = assignIdx >= 0 && startIdx >= 0 && assignIdx < startIdx
+	} else {
+		f.miss = append(f.miss, "Client.Start(kill)")
+	}
+	// grpcControllerServer.Shutdown: `s.server.Stop()` is a statement of the handler's own body (not in a goroutine or a
+	// function literal) and nothing in the handler calls GracefulStop
+	stopNow := false
+	if sh := p.fn("grpcControllerServer", "Shutdown"); sh != nil {
+		for _, s := range sh.Body.List {
+			if es, ok := s.(*ast.ExprStmt); ok && exprString(es.X) == "s.server.Stop()" {
+				stopNow = true
+			}
+		}
+		if strings.Contains(nodeCalls(sh.Body), "GracefulStop(") {
+			stopNow = false
+		}
+	} else {
+		f.miss = append(f.miss, "grpcControllerServer.Shutdown")
+	}
+	f.lean = append(f.lean, fmt.Sprintf("def kill : Kill.Params := ⟨%d, %s, %s, %s, %s, %s, %s, %s, %s⟩",
+		grace, leanBool(forceAfter), leanBool(deadline), leanBool(eofGraceful), leanBool(waits), leanBool(clearedLate), leanBool(keepAlive), leanBool(keptBefore), leanBool(stopNow)))
 	f.set("kill", map[string]interface{}{"graceMs": grace, "forceAfterGrace": forceAfter, "shutdownRpcHasDeadline": deadline,
-		"quitEofIsGraceful": eofGraceful, "waitsForGoroutines": waits, "runnerClearedAfterWait": clearedLate, "rpcKeepAlive": keepAlive})
+		"quitEofIsGraceful": eofGraceful, "waitsForGoroutines": waits, "runnerClearedAfterWait": clearedLate, "rpcKeepAlive": keepAlive, "runnerKeptBeforeStart": keptBefore, "grpcStopImmediate": stopNow})
 }
